@@ -60,6 +60,7 @@ func VerifyIndex(ctx context.Context, name string, idx Index, n int, pb Progress
 	batch := chunksNum / (n * 10)
 
 	// Feed the workers, stop if there are any errors
+	var interrupted bool
 loop:
 	for i := 0; i < chunksNum; i = i + batch + 1 {
 		last := i + batch
@@ -69,11 +70,12 @@ loop:
 		}
 		select {
 		case <-ctx.Done():
+			interrupted = true
 			break loop
 		case in <- idx.Chunks[i : last+1]:
 		}
 	}
 	close(in)
 
-	return g.Wait()
+	return waitOrInterrupted(g, interrupted)
 }
